@@ -606,4 +606,55 @@ v("P-flush-body-in-helper", [(P, FLUSH_BODY_START, "        await self._flush(re
 v("42e-flush-skips-when-busy", [(P, FLUSH_BODY_START, "        if self._locked:\n            return\n        await self._flush(return_exceptions)\n\n    async def _flush(self, return_exceptions: bool) -> None:\n" + FLUSH_BODY_START)],
   {"C13": "R13.5"})
 
+# ---------------------------------------------------------------- defects and refactorings routed through NEW helpers (spliced into their callers)
+REG_BLOCK = """        async with group_reg:
+            task_id = self._num_started
+            self._num_started += 1
+            group_reg.add(task_id)
+            self._tasks_running[task_id] = create_task(
+                coro=self._task_wrapper(
+                    awaitable, task_id, end_callback, cancel_callback
+                ),
+                name=self._task_name(task_id),
+            )
+        return task_id
+
+    def _get_running_task"""
+REG_HELPER = """        async with group_reg:
+            return self._file_new_task(awaitable, group_reg, end_callback, cancel_callback)
+
+    def _file_new_task(self, awaitable, group_reg, end_callback, cancel_callback):
+        task_id = self._num_started
+        self._num_started += 1
+        group_reg.add(task_id)
+        self._tasks_running[task_id] = create_task(
+            coro=self._task_wrapper(
+                awaitable, task_id, end_callback, cancel_callback
+            ),
+            name=self._task_name(task_id),
+        )
+        return task_id
+
+    def _get_running_task"""
+v("H-P-file-task-helper", [(P, REG_BLOCK, REG_HELPER)], {"C01": "ok", "C02": "ok", "C03": "ok", "C10": "ok", "C11": "ok", "C15": "ok"})
+v("H-helper-acquire-dropped", [(P, REG_BLOCK, REG_HELPER), (P, ACQ, "")], {"C01": "R01.1"})
+v("H-helper-id-after-increment", [(P, REG_BLOCK, REG_HELPER.replace("        task_id = self._num_started\n        self._num_started += 1\n", "        self._num_started += 1\n        task_id = self._num_started\n"))],
+  {"C11": "R11.1"})
+v("H-helper-wrong-register", [(P, REG_BLOCK, REG_HELPER.replace("self._file_new_task(awaitable, group_reg,", "self._file_new_task(awaitable, TaskGroupRegister(),"))], {"C10": "R10.1"})
+v("H-helper-release-in-new-helper", [(P, '        log.debug("Cancelled %s", self._task_name(task_id))\n', '        log.debug("Cancelled %s", self._task_name(task_id))\n        self._make_room()\n'),
+                                      (P, "    def _get_running_task(self, task_id: int) -> Task[Any]:\n", "    def _make_room(self) -> None:\n        self._enough_room.release()\n\n    def _get_running_task(self, task_id: int) -> Task[Any]:\n")],
+  {"C01": "R01.3"})
+v("H-flush-forget-helper-clears", [(P, """        for task_id in finished:
+            self._tasks_ended.pop(task_id, None)
+            self._tasks_cancelled.pop(task_id, None)
+""", """        self._forget(finished)
+"""), (P, "    async def gather_and_close(\n", "    def _forget(self, finished) -> None:\n        self._tasks_ended.clear()\n        self._tasks_cancelled.clear()\n\n    async def gather_and_close(\n")],
+  {"C13": "R13.1"})
+v("H-P-flush-forget-helper", [(P, """        for task_id in finished:
+            self._tasks_ended.pop(task_id, None)
+            self._tasks_cancelled.pop(task_id, None)
+""", """        self._forget(finished)
+"""), (P, "    async def gather_and_close(\n", "    def _forget(self, finished) -> None:\n        for task_id in finished:\n            self._tasks_ended.pop(task_id, None)\n            self._tasks_cancelled.pop(task_id, None)\n\n    async def gather_and_close(\n")],
+  {"C13": "ok", "C02": "ok", "C12": "ok"})
+
 VARIANTS = V
